@@ -13,7 +13,7 @@ ID = 'C10'
 LEVEL = 'model_checking'
 TECHNIQUE = ('bounded exhaustive enumeration of (program, source rectangle, replacement text) and depth-2 edit sequences on '
              'the real put_src(action=reparse)/reparse(), each execution judged against a from-scratch CPython parse')
-LEVEL_TEXT = ('every rectangle up to the span bound at character granularity x 17 replacement texts on 20 programs is executed '
+LEVEL_TEXT = ('every rectangle up to the span bound at character granularity x 17 replacement texts on 20 programs (plus coordinate encodings, raw puts incl. to=, stand-alone roots) is executed '
               'on the real code and compared (source, structure, all positions, success <=> validity) with ast.parse of the '
               'spliced text; failures are checked for atomicity')
 LEVEL_NOTE = 'trusted: CPython ast.parse as the definition of validity and of the tree; bounded programs/spans/texts'
